@@ -27,8 +27,8 @@ from .driver import call, py_name, stub
 from .oracle import lexical
 from .oracle.schema import parikh, schema
 
-STRUCT_OPS = ('add', 'add_fwd', 'remove', 'remove_nonchild', 'replace', 'replace_nonchild', 'dot_inst', 'dot_val',
-              'dot_none')
+STRUCT_OPS = ('add', 'add_fwd', 'remove', 'remove_nonchild', 'replace', 'replace_fn', 'replace_nonchild', 'dot_inst',
+              'dot_val', 'dot_none')
 FOREIGN_POOL = ['pitch', 'words', 'p', 'step', 'measure', 'note', 'work', 'credit', 'staff', 'f']
 
 
@@ -115,6 +115,22 @@ class Run:
                 self.model[i] = new
                 self.gone.append(old)
                 self.flags.add('replaced')
+        elif k == 'replace_fn':
+            # replace_child(callable, new, index): the callable matches children by name; target = index-th match
+            # in the schema-ordered view (as documented)
+            names_ = set(op[1])
+            ro = call(e.get_children, True)
+            matches = [c for c in (ro.value if ro.ok else []) if c.name in names_]
+            new = self._new(op[3], idx)
+            r = call(e.replace_child, lambda ch: ch.name in names_, new, op[2])
+            if r.ok and matches and -len(matches) <= op[2] < len(matches):
+                old = matches[op[2]]
+                if any(old is m for m in self.model):
+                    self.model[[i for i, m in enumerate(self.model) if m is old][0]] = new
+                    self.gone.append(old)
+                    self.flags.add('replaced')
+                else:
+                    self.flags.add('replace-fn-target-unknown')
         elif k == 'replace_nonchild':
             old = self._new(op[1], idx)
             new = self._new(op[1], idx)
@@ -278,7 +294,7 @@ def classify_symbols(run):
 
 
 DEFAULT_WEIGHTS = {
-    'add': 10, 'add_fwd': 2, 'remove': 3, 'remove_nonchild': 1, 'replace': 2, 'replace_nonchild': 1,
+    'add': 10, 'add_fwd': 2, 'remove': 3, 'remove_nonchild': 1, 'replace': 2, 'replace_fn': 1, 'replace_nonchild': 1,
     'dot_inst': 2, 'dot_val': 1, 'dot_none': 2, 'to_string': 2, 'deepcopy': 0, 'set_attr': 0, 'set_attr_none': 0,
     'set_value': 0,
 }
@@ -320,7 +336,7 @@ def draw_op(data, run, weights=None, sym_bias=None):
     if weights:
         w.update(weights)
     if not run.model:
-        for k in ('remove', 'replace'):
+        for k in ('remove', 'replace', 'replace_fn'):
             w[k] = 0
     if not text_children(run):
         w['dot_val'] = 0
@@ -344,6 +360,14 @@ def draw_op(data, run, weights=None, sym_bias=None):
         else:
             n = run.model[i].name
         return ['replace', i, n]
+    if k == 'replace_fn':
+        held = sorted(set(run.names()))
+        names_ = sorted(set(data.draw(st.lists(st.sampled_from(held), min_size=1, max_size=3))))
+        n_match = sum(1 for n in run.names() if n in names_)
+        idx_ = data.draw(st.integers(-1, max(n_match - 1, 0)))
+        newn = data.draw(st.sampled_from(names_)) if data.draw(st.integers(0, 3)) else \
+            data.draw(st.sampled_from(run.alphabet))
+        return ['replace_fn', names_, idx_, newn]
     if k == 'replace_nonchild':
         return ['replace_nonchild', data.draw(st.sampled_from(run.alphabet))]
     if k == 'dot_inst':
